@@ -32,8 +32,13 @@ META = {
                   "package, which is proved to be a plain value. The decision ladders of _box/_unbox and the layout/guards of "
                   "get_id_pack are regenerated on every run and tied by reflexivity; the extracted model is compared step by step "
                   "with two real connections. obtain/deliver: only the plumbing is proved (_partial theorems, pickle uninterpreted); "
-                  "that the copy is equal and independent is HARNESS-LEVEL evidence (oracle on 9 fixed + 40/600 generated picklable "
-                  "structures and 40/600 generated tuples mixing values and references, per direction). Three address spaces: oracle-only (6 object kinds over a real two-hop chain).",
+                  "that the copy is equal and independent is HARNESS-LEVEL evidence (oracle on 9 fixed + 25/600 generated picklable "
+                  "structures and 30/600 generated tuples mixing values and references, per direction). One arrival at a time: the "
+                  "theorems about transfer/run assume no arrival is dispatched while another waits for the object's class "
+                  "(HANDLE_INSPECT inside _netref_factory); the nested case has its own small model (nested_arrival) with the clause "
+                  "proved under the generated fact factory_rechecks_cache_after_inspect and refuted without it, and the harness puts two "
+                  "requests carrying one object in flight (scripted for 12 object kinds + 6% of random steps). Objects carried by "
+                  "exceptions are C09's subject, not claimed here. Three address spaces: oracle-only (6 object kinds over a real two-hop chain).",
     "level_note": "Trusted: Coq kernel, pygen, extraction + driver, harness. CPython's id() is a parameter (get_id_pack: any function "
                   "with encodable id packs, the same throughout a history except for objects that are not lent); identity theorems "
                   "assume no other live object shares the id pack, which holds inside one address space but is NOT provable across "
@@ -94,10 +99,11 @@ class PColor(enum.IntEnum):
 class Entry(object):
     """mut(conn, proxy, d): apply an operation with argument d through the proxy; obs(obj): snapshot of the object's
     observable state; hit(obj, d): is the effect of that operation visible on the object"""
-    __slots__ = ("idx", "name", "sx", "obj", "kind", "mut", "obs", "hit", "probe", "rekey", "group", "changed")
+    __slots__ = ("idx", "name", "sx", "obj", "kind", "mut", "obs", "hit", "probe", "rekey", "group", "changed", "flipped")
 
     def __init__(self, kind, obj, mut=None, obs=None, hit=None, probe=False):
         self.kind, self.obj, self.mut, self.obs, self.probe = kind, obj, mut, obs, probe
+        self.flipped = False     # the class is currently not the original one
         self.rekey = None        # callable: reassign / rename the class, so that get_id_pack answers differently
         self.group = [self]      # the entries whose id pack that changes
         self.changed = False     # the id pack changed while the object was lent
@@ -703,6 +709,61 @@ class Hist(object):
             self.desync = True
         return got
 
+    def send2(self, side, spec):
+        """TWO requests carrying the same value are in flight before the receiver dispatches the first: when the value holds
+        an object whose class the receiver does not know, the second arrival is dispatched while the first waits for
+        HANDLE_INSPECT.  Expected: what two sends one after the other give (the same proxy both times)."""
+        pr, ctx = self.pr, self.ctx
+        rcv = not side
+        self.ops.append(["send2", side, spec])
+        self.ops.append(["send2b"])
+        real, msx = pr.build(spec, side)
+        self.mops.append([0, side, [9, [msx]]])
+        self.mops.append([0, side, [9, [msx]]])
+        case = {"kind": "hist", "ops": list(self.ops)}
+        c = pr.conn[side]
+        try:
+            r1 = c.async_request(H_KEEP, real)
+            r2 = c.async_request(H_KEEP, real)
+            r1.wait()
+            r2.wait()
+            got = list(pr.sink[rcv])
+            del pr.sink[rcv][:]
+            if len(got) != 2:
+                raise RuntimeError("%d arrivals for two requests" % len(got))
+        except Exception as e:
+            del pr.sink[rcv][:]
+            pr.settle()
+            self.send_failed(side, real, spec, e, case)
+            for _ in range(2):
+                self.obs.append({"result": ("exc", C.exc_enum(e)), "pkg": None, "snap": None, "kind": "send", "skip": True})
+            self.desync = True
+            return
+        pr.settle()
+        pr.take_frames(True), pr.take_frames(False)
+        self.flag.hit = False
+
+        def same(a, b, path="x"):
+            if type(a) is tuple and type(b) is tuple and len(a) == len(b):
+                for i, (x, y) in enumerate(zip(a, b)):
+                    same(x, y, "%s[%d]" % (path, i))
+            elif (is_netref(a) or is_netref(b)) and a is not b:
+                self.viol("second-proxy-while-first-alive:arrival-during-class-inspect", case, observed="two proxies (at %s)" % path,
+                          expected="one proxy", what="two requests in flight carried the same object: its second arrival was dispatched "
+                          "while the first was waiting for the object's class, and the two arrivals are different live proxies")
+        same(got[0], got[1])
+        for i, g in enumerate(got):
+            new = []
+            mg = pr.to_model(g, rcv, new)
+            if not self.flag.hit:
+                check_arrival(self.flag, pr, side, real, g, case)
+            pr.adopt(rcv, new)
+            note_targets(pr, rcv, new)
+            self.obs.append({"result": ("ok", [9, [mg]]), "pkg": None, "snap": pr.snapshot() if i == 1 else None, "kind": "send",
+                             "skip": self.flag.hit})
+        if self.flag.hit:
+            self.desync = True
+
     def probe_wrong_reference(self, side, real, got, ent, case):
         """the arrival was flagged: state the consequences in the property's own terms (hand the reference back; operate
         through it).  The history ends here."""
@@ -832,6 +893,7 @@ class Hist(object):
         self.mops.append([4, side, [g.name for g in e.group]])
         lent = {id(slot[0]) for slot in pr.conn[side]._local_objects._dict.values()}
         for g in e.group:
+            g.flipped = not g.flipped
             k = get_id_pack(g.obj)
             pr.idp_real[side][(str(k[0]), k[1], k[2])] = g
             if id(g.obj) in lent:
@@ -874,14 +936,14 @@ class Hist(object):
         if "L" in spec:      # id pack of one of side's own objects
             e = pr.pool[side][spec["L"]]
             k = get_id_pack(e.obj)
-            return k, self.idp_model[canon_sx(e.sx)], True
+            return k, (self.idp_model_ren if e.flipped else self.idp_model)[canon_sx(e.sx)], True
         if "R" in spec:      # id pack of one of the peer's objects
             e = pr.pool[not side][spec["R"]]
             k = get_id_pack(e.obj)
             # _netref_factory needs no answer from the owner for builtin names and for classes it has already proxied
             fok = (k[0] in netref.builtin_classes_cache) or (k in pr.conn[not side]._local_objects._dict) \
                 or (k[2] == 0 and k in pr.conn[side]._netref_classes_cache)
-            return k, self.idp_model[canon_sx(e.sx)], fok
+            return k, (self.idp_model_ren if e.flipped else self.idp_model)[canon_sx(e.sx)], fok
         if "K" in spec:      # a key nobody has
             n, a, b = spec["K"]
             return (n, a, b), [9, [[8, [ord(c) for c in n]], [4, a], [4, b]]], n in netref.builtin_classes_cache
@@ -964,7 +1026,9 @@ def gen_history(ctx, r, nsteps, stats):
             side = r.random() < 0.5
             k = r.random()
             held = list(pr.held[side])
-            if r.random() < 0.03:      # the class of a (possibly lent) object is reassigned / renamed
+            if r.random() < 0.06:      # two requests in flight carrying the same value
+                h.send2(side, gen_spec(r, h, side, r.choice([0, 0, 1, 2]), stats))
+            elif r.random() < 0.03:    # the class of a (possibly lent) object is reassigned / renamed
                 h.rekey(side, r.choice([e.idx for e in pr.pool[side] if e.rekey is not None]))
             elif k < 0.62 or not held:
                 h.send(side, r.choice(["arg", "arg", "ret"]), gen_spec(r, h, side, r.choice([0, 1, 2, 3]), stats))
@@ -1003,6 +1067,8 @@ def replay_ops(ctx, ops):
                 h.raw(op[1], op[2])
             elif op[0] == "rekey":
                 h.rekey(op[1], op[2])
+            elif op[0] == "send2":
+                h.send2(op[1], op[2])
     except Exception as e:
         h.crashed(e)
     return h
@@ -1070,8 +1136,10 @@ def idp_tables(ctx, model):
         return {}, {}
     outs = model.batch([["idp", e.sx] for e in pool], shards=1)
     idp_model, idp_inv = {}, {}
+    Hist.idp_model_ren = {}
     for e, o in zip(pool, model.batch([["idpr", e.sx] for e in pool], shards=1)):      # the pack after a class change
         idp_inv[canon_sx([o[0], o[1], o[2]])] = canon_sx(e.sx)
+        Hist.idp_model_ren[canon_sx(e.sx)] = [9, [[8, o[0]], [4, o[1]], [4, o[2]]]]
     for e, o in zip(pool, outs):
         pv = [9, [[8, o[0]], [4, o[1]], [4, o[2]]]]
         idp_model[canon_sx(e.sx)] = pv
@@ -1410,6 +1478,14 @@ def twin_ops(ids, side, variant):
     return ops
 
 
+def inflight_ops(idx, side, variant):
+    """two requests in flight carrying the same never-seen object (its class unknown to the receiver), then the usual"""
+    S, R, O = side, (not side), {"o": idx}
+    first = [["send2", S, O]] if variant == 0 else [["send2", S, {"t": [O, {"p": C.sx_dumps([4, 3])}, {"t": [O]}]}]]
+    return first + [["send", R, "arg", {"h": 0}], ["mut", R, 0, 91], ["send2", S, O], ["drop", R, 0], ["send2", S, {"t": [O, O]}],
+                    ["send", R, "ret", {"h": 1}]]
+
+
 def rekey_ops(idx, side, variant):
     """the class of an object is reassigned / renamed between two sends"""
     S, R, O = side, (not side), {"o": idx}
@@ -1436,6 +1512,10 @@ def count_history(ctx, h, stats):
             ctx.case(("send", op[2], txt), nontrivial=nontrivial, sample={"op": "send", "mode": op[2], "value": txt[:160], "outcome": o["result"][0]})
             ctx.count("step:send:" + op[2])
             ctx.count("send:" + ("with-reference" if ("'o'" in txt or "'h'" in txt) else "plain-only"))
+        elif op[0] in ("send2", "send2b"):
+            if op[0] == "send2":
+                ctx.case(("send2", repr(op[2])), nontrivial=True, sample={"op": "two requests in flight", "value": repr(op[2])[:160], "outcome": o["result"][0]})
+                ctx.count("step:send-two-in-flight")
         elif op[0] == "raw":
             ctx.case(("raw", repr(op[2])), nontrivial=True, sample={"op": "forged package", "spec": repr(op[2])[:160], "outcome": repr(o["result"])[:60]})
             ctx.count("step:raw:" + o["result"][0] + ("" if o["result"][0] == "ok" else ":" + str(o["result"][1])))
@@ -1458,12 +1538,13 @@ def run(ctx):
         "instances, frozensets/slices holding objects, three distinct SAME-NAMED classes and instances of them), tuples nesting all of them "
         "up to depth 3; one dedicated history per pool object; 40 scripted histories lending same-named classes/instances at overlapping "
         "times in both directions (and a 20% bias towards them in random histories); 32 scripted histories (and 3% of random steps) "
-        "that reassign o.__class__ or rename the class of an object between sends; a real three-party chain for 6 object kinds; "
+        "that reassign o.__class__ or rename the class of an object between sends; scripted histories (and 6% of random steps) with TWO "
+        "requests carrying the same value in flight before the receiver dispatches the first; a real three-party chain for 6 object kinds; "
         "obtain/deliver on classic connections. A step is non-trivial unless it sends a single short plain value; distinct by the "
         "abstract operation text")
     stats = {}
     hists = []
-    n_hist = 260 if ctx.quick else 5000
+    n_hist = 190 if ctx.quick else 5000
     pool_n = len(make_pool())
     # dedicated histories: every pool object, both directions for a few
     for idx in range(pool_n):
@@ -1485,6 +1566,13 @@ def run(ctx):
             for variant in range(4):
                 hists.append(replay_ops(ctx, rekey_ops(idx, side, variant)))
                 ctx.count("history:class-changed-between-sends")
+    # two requests in flight carrying one object whose class the receiver has to ask for (and some whose class it knows)
+    for e in ref:
+        if e.kind in ("instance", "twin-instance", "twin-class", "class", "int-subclass", "namedtuple", "int-enum-member", "exception-instance",
+                      "reclassable-instance", "list", "function", "frozenset-with-object"):
+            for variant in (0, 1):
+                hists.append(replay_ops(ctx, inflight_ops(e.idx, (e.idx + variant) % 2 == 0, variant)))
+                ctx.count("history:two-requests-in-flight")
     for i in range(n_hist):
         hists.append(gen_history(ctx, r, r.choice([3, 6, 10, 14, 20]), stats))
         if len(hists) >= 400:
@@ -1494,9 +1582,9 @@ def run(ctx):
     for which in ("obtain", "deliver"):
         for idx in range(len(COPY_OBJECTS)):
             check_copy(ctx, which, idx)
-        for i in range(40 if ctx.quick else 600):
+        for i in range(25 if ctx.quick else 600):
             check_copy(ctx, which, None, seed=r.randrange(2**32))
-        for i in range(40 if ctx.quick else 600):
+        for i in range(30 if ctx.quick else 600):
             check_copy_tuple(ctx, which, r.randrange(2**32))
     for i in range(len(CHAIN_KINDS)):
         check_chain(ctx, i)
